@@ -20,19 +20,19 @@ open YV YV.Y YV.SC YV.D YV.E
 variable {τ : Type}
 
 /-- **C19 (round trip, JSON and RFC 7951).** -/
-theorem C19_json_roundtrip (kind : τ → VK) (rfc : Bool) (modName : Tok) (hm : modName.contains 58 = false)
+theorem C19_json_roundtrip (kind : τ → VK) (rfc : Bool) (mo : List Tok → Tok) (hm : ∀ p, (mo p).contains 58 = false)
     (top : List (SN τ)) (rn : Tok) (ks : List DN) (hwf : wfKids kind top ks = true) :
-    fromJ top (toJ kind rfc modName top (.mk rn ks [])) = some (.mk [] ks []) := by
-  simp only [toJ, fromJ, DN.kids, dec_enc_kids kind rfc modName hm top true ks hwf, Option.map_some]
+    fromJ top (toJ kind rfc mo top (.mk rn ks [])) = some (.mk [] ks []) := by
+  simp only [toJ, fromJ, DN.kids, dec_enc_kids kind rfc mo hm top [] [] ks hwf, Option.map_some]
 
 /-- the two JSON encodings of a tree decode to the same tree -/
-theorem C19_encodings_agree (kind : τ → VK) (modName : Tok) (hm : modName.contains 58 = false)
+theorem C19_encodings_agree (kind : τ → VK) (mo : List Tok → Tok) (hm : ∀ p, (mo p).contains 58 = false)
     (top : List (SN τ)) (root : DN) (hv : root.vals = []) (hwf : wfKids kind top root.kids = true) :
-    fromJ top (toJ kind true modName top root) = fromJ top (toJ kind false modName top root) := by
+    fromJ top (toJ kind true mo top root) = fromJ top (toJ kind false mo top root) := by
   cases root with
   | mk rn ks vs =>
     simp only [DN.vals] at hv; subst hv
-    rw [C19_json_roundtrip kind true modName hm top rn ks hwf, C19_json_roundtrip kind false modName hm top rn ks hwf]
+    rw [C19_json_roundtrip kind true mo hm top rn ks hwf, C19_json_roundtrip kind false mo hm top rn ks hwf]
 
 /-- **C19 (a scalar is never altered by the reader).** whatever the document holds for a leaf, the value
     handed to the leaf's type is that very string / number literal / boolean word (or "" for null): a value
@@ -62,13 +62,13 @@ theorem C19_xml_roundtrip (top : List (SN τ)) (rn : Tok) (ks : List DN) (hwf : 
     simp only [toX, fromX, DN.kids, DN.name, xdec_whole top ks f hwf hall, Option.map_some]
 
 /-- all three encodings of a tree decode to the same children, in the same order -/
-theorem C19_three_encodings_agree (kind : τ → VK) (modName : Tok) (hm : modName.contains 58 = false)
+theorem C19_three_encodings_agree (kind : τ → VK) (mo : List Tok → Tok) (hm : ∀ p, (mo p).contains 58 = false)
     (top : List (SN τ)) (rn : Tok) (ks : List DN) (hj : wfKids kind top ks = true) (hx : xwfKids top ks)
     (fuel : Nat) (hf : dDepthL ks < fuel) :
-    (fromJ top (toJ kind true modName top (.mk rn ks []))).map DN.kids = some ks ∧
-    (fromJ top (toJ kind false modName top (.mk rn ks []))).map DN.kids = some ks ∧
+    (fromJ top (toJ kind true mo top (.mk rn ks []))).map DN.kids = some ks ∧
+    (fromJ top (toJ kind false mo top (.mk rn ks []))).map DN.kids = some ks ∧
     (fromX top fuel (toX top (.mk rn ks []))).map DN.kids = some ks := by
-  rw [C19_json_roundtrip kind true modName hm top rn ks hj, C19_json_roundtrip kind false modName hm top rn ks hj,
+  rw [C19_json_roundtrip kind true mo hm top rn ks hj, C19_json_roundtrip kind false mo hm top rn ks hj,
     C19_xml_roundtrip top rn ks hx fuel hf]
   simp [DN.kids]
 
